@@ -918,6 +918,12 @@ pub fn run_check(props: &[Property], id: &str, tier: Tier, seed: u64) -> CheckOu
     total_eval += fuzz_runs_total;
 
     let wall = t0.elapsed().as_secs_f64();
+    let mut assumptions_out: Vec<String> = p.assumptions.iter().map(|x| x.to_string()).collect();
+    if let Ok(note) = std::env::var("VERIF_EXTRA_NOTE") {
+        if !note.is_empty() {
+            assumptions_out.push(note);
+        }
+    }
     let evidence = json!({
         "property_id": id,
         "tier": tier.name(),
@@ -937,14 +943,16 @@ pub fn run_check(props: &[Property], id: &str, tier: Tier, seed: u64) -> CheckOu
             "inconclusive": inconclusive,
             "known_findings_reported": known_lines.iter().cloned().collect::<Vec<_>>(),
         },
-        "assumptions": p.assumptions,
+        "assumptions": assumptions_out,
         "wall_s": wall,
         "violations": violations.len(),
     });
     let edir = verif_root().join("evidence");
     let _ = std::fs::create_dir_all(&edir);
     let epath = edir.join(format!("{}.json", id));
-    if let Ok(mut f) = std::fs::File::create(&epath) {
+    if std::env::var("VERIF_NO_EVIDENCE").is_ok() {
+        // auxiliary pass (see run_check.sh): its verdict counts, the evidence file is written by the main pass
+    } else if let Ok(mut f) = std::fs::File::create(&epath) {
         let _ = f.write_all(serde_json::to_string_pretty(&evidence).unwrap().as_bytes());
         let _ = f.write_all(b"\n");
     }
